@@ -99,6 +99,19 @@ def outcome_of(fn):
         return ("raise", type(ex).__name__)
 
 
+SHARED: dict = {}
+
+
+def shared_instance(which: str, real):
+    """One long-lived Automatic instance per defuzzifier class, with canned fuzzy outputs of both kinds."""
+    if which not in SHARED:
+        ts = fl.Aggregated("o", 0.0, 1.0, None, [fl.Activated(real["k1"], 0.5, None)])
+        tsu = fl.Aggregated("o", 0.0, 1.0, None, [fl.Activated(real["rampu"], 0.5, None)])
+        want = {"WeightedAverage": (1.5, 0.5), "WeightedSum": (0.75, 0.25)}[which]
+        SHARED[which] = (getattr(fl, which)(), ts, tsu, want)
+    return SHARED[which]
+
+
 def run_seq(acc: Acc, real, ref, group: str, aggr_name, seq, impl_cache) -> None:
     aggr = getattr(fl, aggr_name)() if aggr_name else None
     acts = [fl.Activated(real[n], d, None) for n, d in seq]
@@ -170,6 +183,21 @@ def run_seq(acc: Acc, real, ref, group: str, aggr_name, seq, impl_cache) -> None
                 ks = [1.5 if n == "k1" else -2.0 for n, d in positive]
                 if ks and not (min(ks) - 1e-12 <= z <= max(ks) + 1e-12):
                     acc.violate("average-within-constants", {}, case, [min(ks), max(ks)], z, "average outside constants")
+        # the kind is inferred per call: a long-lived Automatic instance that has just defuzzified an output of the
+        # other kind must give the same result as a fresh one (and stay Automatic)
+        inst, canned_ts, canned_tsu, (want_ts, want_tsu) = shared_instance(which, real)
+        other, want_other = (canned_tsu, want_tsu) if "tsukamoto" not in kinds else (canned_ts, want_ts)
+        got_other = outcome_of(lambda: float(inst.defuzzify(other)))
+        got_shared = outcome_of(lambda: float(inst.defuzzify(agg)))
+        fresh = results["Automatic"]
+        acc.cls("shared_instance_calls")
+        if got_other != ("value", want_other) or got_shared[0] != fresh[0] or (
+                fresh[0] == "value" and not close(got_shared[1], fresh[1], 1e-15, 1e-15)) or (
+                fresh[0] == "raise" and got_shared[1] != fresh[1]) or inst.type.name != "Automatic":
+            acc.violate("shared-instance", {"defuzzifier": which}, {**case0, "defuzzifier": which}, [("value", want_other), fresh],
+                        [got_other, got_shared, inst.type.name],
+                        f"{which}: a reused Automatic instance gives {got_other}, {got_shared} (type now {inst.type.name}); fresh instances give {want_other}, {fresh}")
+            SHARED.pop(which, None)
         # Automatic equals the explicit kind when all terms are of one kind
         if len(kinds) == 1 and seq:
             explicit = {"ts": "TakagiSugeno", "tsukamoto": "Tsukamoto", "inverse": "TakagiSugeno"}[next(iter(kinds))]
